@@ -52,13 +52,15 @@ class HostName(Capability):
 
         hostname = self.host_name.encode('utf-8')
         if len(hostname) > self.HOSTNAME_MAX_LEN:
-            hostname = hostname[: self.HOSTNAME_MAX_LEN]
+            # cut on a character, not inside one: 64 octets of a longer UTF-8 name could end on half a character,
+            # and our own decoder (like any strict one) then refused the OPEN we sent
+            hostname = hostname[: self.HOSTNAME_MAX_LEN].decode('utf-8', 'ignore').encode('utf-8')
         ret = bytes([len(hostname)]) + hostname
 
         if self.domain_name:
             domainname = self.domain_name.encode('utf-8')
             if len(domainname) > self.HOSTNAME_MAX_LEN:
-                domainname = domainname[: self.HOSTNAME_MAX_LEN]
+                domainname = domainname[: self.HOSTNAME_MAX_LEN].decode('utf-8', 'ignore').encode('utf-8')
             ret += bytes([len(domainname)]) + domainname
         else:
             ret += bytes([0]) + b''
